@@ -162,9 +162,11 @@ def bfs(ctx, factory_name, params, max_depth, max_states=None, ops_chunk=12, rec
                 if ctx.expired() or (max_states and len(seen) >= max_states):
                     aborted = True
                     break
+            if pool.cut:
+                aborted = True        # the pool withheld tasks of this level because the deadline passed
             if aborted:
                 ctx.incomplete('stopped during depth %d (deadline or state cap); depth %d fully covered' % (depth, depth - 1))
-                pool.pool.terminate()
+                pool.cancel()
                 break
             stats['completed_depth'] = depth
             stats['states'] = len(seen)
